@@ -23,6 +23,14 @@ TInit == /\ pc = "idle" /\ req = [none |-> TRUE] /\ bodyRead = FALSE /\ saw = No
 
 TReq == IsEvent("Req") /\ Start(Tr[l].req)
 
+\* the header parameters read from the real OpenAPI document for the operation of the current request
+ParamSet(ps) == {[lname |-> p.lname, required |-> p.required, type |-> p.type, format |-> p.format] : p \in Range(ps)}
+TPublished == /\ IsEvent("Published")
+              /\ req # [none |-> TRUE]
+              /\ (Required(req.rpc) # {}) => Tr[l].found
+              /\ PublishedCovers(req.rpc, ParamSet(Tr[l].params))
+              /\ UNCHANGED vars
+
 TBodyRead == IsEvent("BodyRead") /\ TouchBody
 
 THandlerSaw == IsEvent("HandlerSaw") /\ Dispatch(SawFn(Tr[l].saw))
@@ -44,7 +52,7 @@ TResp == IsEvent("Resp") /\ Emit /\ RespMatches(Tr[l], resp)
 
 TSilent == Internal /\ UNCHANGED l
 
-TNext == TReq \/ TBodyRead \/ THandlerSaw \/ THook \/ TResp \/ TSilent
+TNext == TReq \/ TPublished \/ TBodyRead \/ THandlerSaw \/ THook \/ TResp \/ TSilent
 
 TSpec == TInit /\ [][TNext]_tvars
 
